@@ -82,7 +82,32 @@ def _dump_unknown(pc, g):
         f.write('; goal conjunct: %s\n' % str(g).replace('\n', ' ')[:2000] + txt)
 
 
+_MEMO = {}      # (ids of the hypotheses, id of the goal, flags) -> (terms kept alive, Verdict)
+
+
 def discharge(pc, goal, want_smt2=False, all_backends=False, scale=1):
+    """Check validity of  And(pc) => goal.  The paths of one function share their prefixes, and every path
+    re-emits the obligations of its prefix: an obligation with the very same hypotheses and the very same goal
+    (hash-consed z3 terms: same ids) as one that has been decided is not sent to the solvers again."""
+    if os.environ.get('PYVC_NO_DISCHARGE_MEMO'):
+        return _discharge0(pc, goal, want_smt2, all_backends, scale)
+    try:
+        key = (frozenset(t.get_id() for t in pc), goal.get_id(), bool(all_backends), scale)
+    except AttributeError:
+        return _discharge0(pc, goal, want_smt2, all_backends, scale)
+    hit = _MEMO.get(key)
+    if hit is not None and not (want_smt2 and hit[1].smt2 is None):
+        v0 = hit[1]
+        return Verdict(v0.status, v0.backend, 0.0, v0.model, v0.smt2, v0.reason)
+    v = _discharge0(pc, goal, want_smt2, all_backends, scale)
+    if v.status in ('unsat', 'sat'):
+        if len(_MEMO) > 20000:
+            _MEMO.clear()
+        _MEMO[key] = ((list(pc), goal), v)      # the terms are kept alive: their ids are not reused
+    return v
+
+
+def _discharge0(pc, goal, want_smt2=False, all_backends=False, scale=1):
     """Check validity of  And(pc) => goal.  A conjunctive goal is proved conjunct by conjunct (each query
     is much easier for the string solvers than the conjunction); the first conjunct that is not proved
     decides the verdict."""
@@ -188,12 +213,41 @@ def _abstract_apps(terms, congruence=True):
     return out
 
 
-def _by_rewriting(pc, goal, external=False, skip_z3=False):
+def _resolve_guards(terms):
+    """`guard -> body` with an ARITHMETIC guard that the arithmetic hypotheses alone entail is replaced by `body`
+    (equivalent under the hypotheses).  The defining equations of the measures (join(i+1) == join(i) + xs[i] for
+    0 <= i < len, ...) are guarded like that: unguarded, `solve-eqs` substitutes them away and what is left is
+    decided by simplification, where the string solvers, given the same facts as conditional word equations, get
+    lost."""
+    cands = [t for t in terms if (z3.is_implies(t) or (z3.is_or(t) and t.num_args() == 2 and z3.is_not(t.arg(0))))
+             and not _uses_strings([t.arg(0)])]
+    if not cands or len(cands) > 200:
+        return terms
+    s = z3.Solver()
+    s.set('timeout', 300)
+    s.add(*[t for t in terms if not _uses_strings([t])])
+    ids = {t.get_id() for t in cands}
+    out = []
+    for t in terms:
+        if t.get_id() in ids:
+            guard = t.arg(0) if z3.is_implies(t) else t.arg(0).arg(0)
+            s.push()
+            s.add(z3.Not(guard))
+            r = s.check()
+            s.pop()
+            if r == z3.unsat:
+                out.append(t.arg(1))
+                continue
+        out.append(t)
+    return out
+
+
+def _by_rewriting(pc, goal, external=False, skip_z3=False, timeout_ms=2000):
     """Cheap first attempt: abstract uninterpreted applications, eliminate defined symbols (solve-eqs) and
     simplify.  Decides the many obligations that are pure rewriting with the equations on the path -- where
     the string solvers, given the same equations as word equations, do not terminate."""
     try:
-        terms = _abstract_apps(list(pc) + [z3.Not(goal)])
+        terms = _resolve_guards(_abstract_apps(list(pc) + [z3.Not(goal)]))
         g = z3.Goal()
         g.add(*terms)
         res = z3.Then('simplify', 'propagate-values', 'solve-eqs', 'simplify')(g)
@@ -201,7 +255,7 @@ def _by_rewriting(pc, goal, external=False, skip_z3=False):
             if len(sub) == 1 and z3.is_false(sub[0]):
                 continue
             s = z3.Solver()
-            s.set('timeout', 2000)
+            s.set('timeout', timeout_ms)
             s.add(*[sub[i] for i in range(len(sub))])
             r = z3.unknown if (skip_z3 and external) else s.check()      # (skip_z3: z3 has been tried on this already)
             if r == z3.unsat:
@@ -387,6 +441,16 @@ def _by_cases(hyps, g):
     cases = [k == a for a in cands.values()] + [z3.And(*[k != a for a in cands.values()])]
     for c in cases:
         hs = hyps + [c]
+        if _by_rewriting(hs, g, timeout_ms=700):       # (a case that is decided by rewriting is decided at once)
+            continue
+        if z3.is_eq(c) and len(cands) > 1:
+            # second level: where does THIS candidate lie among the other ones (a == b1 | ... | none of them:
+            # exhaustive) -- e.g. the length of a sequence at an earlier loop head against its length now
+            a = c.arg(1)
+            others = [b for b in cands.values() if not b.eq(a)]
+            subs = [a == b for b in others] + [z3.And(*[a != b for b in others])]
+            if all(_by_rewriting(hs + [sc], g, timeout_ms=700) for sc in subs):
+                continue
         if not (_by_rewriting(hs, g) or _by_rewriting(hs, g, external=True, skip_z3=True)):
             return False
     return True
